@@ -3814,7 +3814,8 @@ impl Zeroconf {
     }
 
     fn exec_command_register_resend(&mut self, fullname: String, if_index: u32) -> MyResult<()> {
-        let Some(info) = self.my_services.get_mut(&fullname) else {
+        // `my_services` is keyed by the lower-cased full name (see `register_service`).
+        let Some(info) = self.my_services.get_mut(&fullname.to_lowercase()) else {
             trace!("announce: cannot find such service {}", &fullname);
             return Ok(());
         };
